@@ -170,3 +170,69 @@ def histories(o0, m0, r0, l0, o1, m1, r1, l1, o2, m2, r2, l2, final, w):
     final, w = P(final, 2, 3), P(w, 1, 2)
     with env.notrace():
         return _run(hist, final, w)
+
+
+# ---- two modules with one simple name, defined in different python files (qualified names differ) --------------
+_LIBSRC = '''
+import hdl21 as h
+def make(names):
+    B = h.Bundle(name="B")
+    for n in names:
+        B.add(h.Signal(name=n))
+    Inner = h.Module(name="Inner")
+    Inner.d = h.BundleInstance(of=B, port=True)
+    Inner.r = h.primitives.R(r=1)(p=getattr(Inner.d, names[0]), n=getattr(Inner.d, names[1]))
+    return Inner, B
+'''
+_LIBS = {}
+
+
+def _libs():
+    if not _LIBS:
+        import importlib, sys, tempfile, os
+        import atexit, shutil
+        d = tempfile.mkdtemp(prefix="c07libs_")
+        atexit.register(shutil.rmtree, d, True)
+        for n in ("c07_lib_a", "c07_lib_b"):
+            with open(os.path.join(d, n + ".py"), "w") as f:
+                f.write(_LIBSRC)
+        sys.path.insert(0, d)
+        _LIBS["a"], _LIBS["b"] = importlib.import_module("c07_lib_a"), importlib.import_module("c07_lib_b")
+    return _LIBS["a"], _LIBS["b"]
+
+
+def _namesake_top():
+    la, lb = _libs()
+    (Ia, Ba), (Ib, Bb) = la.make(["p", "n"]), lb.make(["x", "y"])
+    PA = h.Module(name="PA"); PA.b = h.BundleInstance(of=Ba); PA.i = Ia(d=PA.b)
+    PB = h.Module(name="PB"); PB.b = h.BundleInstance(of=Bb); PB.i = Ib(d=PB.b)
+    T = h.Module(name="Top"); T.a = PA(); T.b = PB()
+    return T, [Ia, Ib, PA, PB]
+
+
+def _namesakes(o0, k0, o1, k1):
+    env._reset_all()
+    want = h.to_proto(_namesake_top()[0]).SerializeToString(deterministic=True)
+    T, parts = _namesake_top()
+    for op, k in ((o0, k0), (o1, k1)):
+        if k < 0:
+            continue
+        if op == 0:
+            h.elaborate(parts[k])
+        elif op == 1:
+            h.to_proto(parts[k])
+        else:
+            h.netlist(parts[k], io.StringIO(), fmt="spice")
+    env.COUNTS["reached"] += 1
+    return h.to_proto(T).SerializeToString(deterministic=True) == want
+
+
+@harness("C07", args="o0: int, k0: int, o1: int, k1: int", pre=["0 <= o0 <= 2", "0 <= o1 <= 2", "-1 <= k0 <= 3", "-1 <= k1 <= 3"],
+         tiers={"quick": {"timeout": 120}}, sample=(0, 0, 0, 1),
+         bounds="two modules with one simple name (`Inner`, defined in two python files: qualified names differ), each with a bundle port of a different bundle, below two parents of one top; histories of two calls (elaborate / to_proto / netlist) on either Inner or either parent before the top is exported",
+         generalises="history selectors (solver-enumerated)", outside="")
+def namesake_histories(o0, k0, o1, k1):
+    P = env.pick
+    a = (P(o0, 0, 2), P(k0, -1, 3), P(o1, 0, 2), P(k1, -1, 3))
+    with env.notrace():
+        return _namesakes(*a)
